@@ -6,7 +6,7 @@ from ..runner import Failure
 LEVEL = "exploration"
 RULE = (
     "Hypothesis-generated programs from a 'structure' profile (all index kinds; loc, set_index, sort_values, index joins, concat, repartition, partitions, head/tail, "
-    "persist/delayed/legacy re-imports) + templates; for EVERY SSA value of the program and stages {logical, simplified-logical, physical, fused}: the plan is executed "
+    "persist/delayed/legacy re-imports) + templates + systematic shift(periods, freq=fixed/relative/anchored offset) programs over datetime divisions straddling month ends; for EVERY SSA value of the program and stages {logical, simplified-logical, physical, fused}: the plan is executed "
     "with the all-keys executor and (1) len(divisions)==npartitions+1, (2) computed partitions == reported npartitions of the stage plan and of its lowering, "
     "(3) known divisions are sorted and every partition's index values lie in [d_i, d_i+1) (last closed), (4) len(v), shape, size and per-partition Lengths(...) "
     "equal the computed data. non-trivial = an optimized stage reports known divisions with >= 2 partitions, or a length is answered without reading data; "
@@ -24,9 +24,32 @@ PROFILE_T = gen.Profile("structure", weights=W, max_steps=9, max_rows=16, n_tabl
 PID = "C06"
 
 
+FREQS = ["1D", "td:36h", "do:days=2", "do:months=1", "do:years=1", "do:day=5", "do:weekday=0", "do:months=1,day=31", "MS", "W"]
+DT_VALUES = [[0, 0, 1, 2, 2, 3, 5, 5], [26, 26, 27, 28, 28, 29, 31, 31], [25, 26, 27, 28, 29, 30, 56, 57]]  # days after 2000-01-03: the last two straddle Jan 29..31 / Feb 29
+
+
+def shift_freq_cases(tier):
+    """shift(periods, freq=offset) of frames, series and indexes with known datetime divisions: fixed offsets move the divisions,
+    relative or anchored ones (months, replace-day, weekday, aliases) are not monotonic and must not report shifted divisions (seeded change C06-c)"""
+    out = []
+    layouts = [l for l in templates.LAYOUTS_A if l.get("known") or l["kind"] == "from_pandas"] + [{"kind": "from_pandas", "npartitions": 4, "sort": True}]
+    for vi, vals in enumerate(DT_VALUES):
+        for li, lay in enumerate(layouts):
+            for fi, fq in enumerate(FREQS):
+                for periods in (1, -1, 2):
+                    if tier == "quick" and (vi + li + fi + periods) % 2:
+                        continue
+                    steps = [templates.S("v1", "shift", ["t0"], f="shift", periods=periods, freq=fq),
+                             templates.S("v2", "col", ["t0"], col="f"),
+                             templates.S("v3", "shift", ["v2"], f="shift", periods=periods, freq=fq)]
+                    out.append({"tables": [templates.table("t0", templates.ROWS_A, index={"kind": "dt", "name": "idx", "values": vals}, layout=lay)],
+                                "steps": steps, "out": ["v1", "v3"], "config": {"shuffle": "tasks"}, "template": f"shift-freq:{fq}"})
+    return out
+
+
 def systematic(tier):
     m = templates.matrix_cases(tier)
-    return templates.c01_cases(tier) + (m if tier == "thorough" else m[::2])
+    return templates.c01_cases(tier) + (m if tier == "thorough" else m[::2]) + shift_freq_cases(tier)
 
 
 def strategy(tier):
